@@ -73,6 +73,7 @@ def check(run):
         run.guard("C09.2.order-taint", cfg, lambda: rule_taint(run, F, cfg))
         run.guard("C09.3.no-clock-or-address", cfg, lambda: rule_nondeterminism(run, F, cfg))
         run.guard("C09.4.fixpoint", cfg, lambda: rule_fixpoint(run, F, cfg))
+        run.guard("C09.2.order-taint", cfg + "/sort-key", lambda: rule_sort_key_unique(run, F, cfg))
         run.guard("C09.4.fixpoint", cfg + "/no-carry-over", lambda: rule_no_carry(run, F, cfg))
         from . import C08 as _C08c   # lazy
         b81 = run.borrow("C08", only=r":restored", why="re-serializing a loaded engine reproduces the buffer only if every stored value is "
@@ -401,3 +402,34 @@ def rule_no_carry(run, F, cfg):
            f"the only field writes of Engine::deserialize are self.blocker = <decoded> and self.cosmetic_cache = <decoded> "
            f"({writes}); a receiver-side setting copied into the decoded blocker (e.g. enable_optimizations) is serialized "
            f"again and breaks serialize(deserialize(b)) == b", site=e.loc(0), config=cfg)
+
+
+
+def rule_sort_key_unique(run, F, cfg):
+    """The buckets are written in the order of the rules' `id` (insert_dup orders by it, optimize() re-sorts by it), which
+    makes the bytes independent of the hash order the rules were collected in ONLY while different rules of a bucket have
+    different ids. The id is the hash of the rule's line, given once by the parser (and restored as read by the loader).
+    Who-may-write: no other function assigns `NetworkFilter.id`, and no other construction of a NetworkFilter computes
+    it -- in particular fusion keeps its first member's line hash: the structural id (`get_id()`) ignores the tag, so
+    fused rules of different tags would tie, and ties are written in collection (hash) order."""
+    writes, aggs = [], []
+    NFT = "filters::network::NetworkFilter"
+    for nme, f in F.fns.items():
+        for b, i, st in f.statements():
+            if st["k"] != "assign":
+                continue
+            pr = st["pl"]["p"]
+            if pr and isinstance(pr[-1], dict) and pr[-1].get("n") == "id" and NFT in str(f.locals[st["pl"]["l"]]):
+                writes.append((nme.split("::", 1)[-1], f.expr_rvalue(st["rv"])[:60], f.loc(b, i)))
+            if st["rv"]["k"] == "agg" and st["rv"].get("adt") == NFT and f.j.get("kind") != "Derive" and "::_::" not in nme \
+                    and not nme.endswith("as std::clone::Clone>::clone"):
+                d = dict(zip(st["rv"]["fields"], st["rv"]["ops"]))
+                aggs.append((nme, f.expr_operand(d["id"])))
+    okw = not writes
+    oka = sorted(aggs) == sorted([("filters::network::NetworkFilter::parse", "utils::fast_hash(arg:line)"),
+                                  ("data_format::v0::<impl std::convert::From<data_format::v0::NetworkFilterV0DeserializeFmt> for "
+                                   "filters::network::NetworkFilter>::from", "arg:v.id")])
+    run.ob("C09.2.order-taint", "sort-key-is-the-line-hash", okw and oka,
+           "NetworkFilter.id (the key the serialized buckets are ordered by) is the parser's hash of the rule's line or the "
+           f"value read back by the loader, and is never re-assigned (assignments: {writes[:2]}; constructions: "
+           f"{[(a[0].split('::')[-1], a[1][:40]) for a in aggs]})", site=writes[0][2] if writes else "", config=cfg)
